@@ -45,7 +45,7 @@ func c09Decode(n []int) c09Cfg {
 }
 
 func c09Body(name string, level int, tpl string, withParent bool, extra string, pform int) string {
-	s := "[" + name + itoa(level) + ":{{ name() }}" + extra
+	s := "[" + name + itoa(level) + "{{ i }}:{{ name() }}" + extra // i: the root's loop variable where the block is rendered inside that loop
 	if withParent {
 		switch pform {
 		case 1:
@@ -190,7 +190,7 @@ func c09Expect(c c09Cfg) string {
 		if d.level == -1 {
 			return "[" + n + "U:blk]"
 		}
-		s := "[" + n + itoa(d.level) + ":" + d.tpl
+		s := "[" + n + itoa(d.level) + c09CurI + ":" + d.tpl
 		if d.level == 0 {
 			if ni == 0 && c.blockFn && len(c.names) > 1 {
 				s += "&" + render(1, 0)
@@ -235,7 +235,12 @@ func c09Expect(c c09Cfg) string {
 			sb.WriteString(render(i, 0) + "|")
 		}
 	case 2:
-		sb.WriteString(render(0, 0) + render(0, 0) + "|")
+		c09CurI = "1"
+		r1 := render(0, 0)
+		c09CurI = "2"
+		r2 := render(0, 0)
+		c09CurI = ""
+		sb.WriteString(r1 + r2 + "|")
 		for i := 1; i < len(c.names); i++ {
 			sb.WriteString(render(i, 0) + "|")
 		}
@@ -243,6 +248,9 @@ func c09Expect(c c09Cfg) string {
 	sb.WriteString(">R")
 	return sb.String()
 }
+
+// c09CurI: the value of the root's loop variable while the reference renders a block inside that loop
+var c09CurI string
 
 // c09NameStyle: 0 plain names ("t1"); 1 names with surrounding blanks and an inner blank (" t 1 "): a template name is
 // an opaque loader key
